@@ -1,10 +1,1 @@
 #![allow(warnings)]
-
-use std::fmt::Debug;
-pub fn sz<T: Debug>(t: &T) -> usize { format!("{:?}", t).len() }
-#[derive(Clone, Debug, PartialEq)]
-pub enum Tok { A, B, C, D, Comma }
-#[derive(Clone, Debug, PartialEq, Default)]
-pub struct Loc(pub String);          // deliberately not Copy
-#[derive(Clone, Debug, PartialEq)]
-pub struct Ast<'a, T> { pub name: &'a str, pub items: Vec<T> }
